@@ -8,6 +8,16 @@ CHECKS = {
   "text": "Theorems for all keypoints, sizes, strides, sigma>0: every cell of generate_confmaps equals exp(-d^2/2(sigma*stride)^2) at image position (j*stride,i*stride); values in [0,1]; antitone in distance, =1 iff on the keypoint; multi-instance/centroid cells are the maximum over animals; missing keypoints contribute nothing (all-missing => 0); grid length ceil(n/stride). The model (cells hold the exact rational argument of exp) is tied to generate_confmaps/generate_multiconfmaps/both DataPipes by per-run differential execution within float32 tolerance, and the property statement is evaluated independently on the implementation's outputs.",
   "note": "Trusted: Coq kernel, harness, float32 kernels of torch (exp, nan_to_num, maximum, arange) modelled not verified. Axioms: the four Reals axioms of the standard library (sig_forall_dec, sig_not_dec, functional_extensionality_dep, classic).",
  },
+ "C08": {
+  "technique": "Coq proof (fold invariants over the grouping loop, C17 edge order as lemma, Hungarian solver as Section oracle with contract) + model/code correspondence incl. per-call validation of scipy against the contract",
+  "text": "26 unbounded, axiom-free theorems about an executable model of candidates -> cost matrix -> assignment -> assign_connections_to_instances -> make_predicted_instances -> group_instances_sample -> predict: under the C17 edge order and the oracle contract only cases 1/2 fire and the internal assert/KeyError/IndexError are unreachable; the output is a partition (each keypoint is an input peak with its score, no peak twice, <=1 peak per node); instances are the connected components of accepted matches surviving the size filter, dropped whole below min_instance_peaks; instance score = sum of accepted edge scores; matches below min_line_scores/NaN unused; per-edge optimality from the contract. Totality is refuted on the current code (F3) with an exact selector, proved outside it and proved in full for the repaired variant (model parameter fixed_F3). The model is tied to the real functions by differential execution on ~3.8k (quick) / 30k (thorough) generated cases; every matrix handed to scipy is compared with the model's and every scipy answer is checked against the contract by brute force.",
+  "note": "Trusted: Coq kernel, harness; scipy.optimize.linear_sum_assignment is an oracle (contract validated per call, sizes <= 5x5); make_line_subs/score_paf_lines are not modelled (their output is fed to the model exactly). No axioms.",
+ },
+ "C18": {
+  "technique": "Coq proof (equality of three pipeline compositions over a shared step model) + direct framework-vs-framework differential execution on the implementation",
+  "text": "24 unbounded, axiom-free theorems: the in-memory dataset, the np_chunks dataset and chunk-function + streaming compositions (written in the order each framework's code applies the shared steps) yield equal keypoints/centroids/sizes/content maps/target inputs for single-instance, centroid and bottom-up at any scale and centered-instance at scale 1 (hence equal confidence maps via C01); every listed DataPipe block equals its functional counterpart; the documented exclusion (centered-instance at scale != 1) is stated with a witness and a general size lemma so it cannot silently widen. Tie: each framework's real samples are compared with each other (images <= 1/255, points 4e-4, maps 3e-4) and with the Coq composition (sizes, keypoints, centroids, bbox corner, content map measured on ramp images); nine DataPipe blocks vs functions.",
+  "note": "Trusted: Coq kernel, harness; litdata's on-disk format is not under test (its serialisers are applied in memory, StreamingDataset.__init__/__getitem__ stubbed); torch/kornia kernels modelled, not verified. No axioms.",
+ },
  "C17": {
   "technique": "Coq proof (BFS invariant, induction) over an executable model of toposort_edges + exhaustive model/code correspondence",
   "text": "Theorem for every arborescence edge list of any size: the modelled toposort returns a permutation of all edge indices with each edge after the edge into its source. The model is tied to toposort_edges by exhaustive differential execution over all rooted labelled trees on 2..5 (quick) / 2..6 (thorough) nodes under all edge listings, plus sampled 7-node trees and non-tree digraphs.",
